@@ -26,19 +26,19 @@ TEXT = {
             "seeded sub-history simulation of iterator sessions against a two-pointer model"),
     "C09": ("§3 C09", "Drain sessions over every layout and range shape with random next/next_back words and drop point; yielded items, len, contents after drop (prefix ++ suffix) and the ledger of un-yielded elements are checked; back-fill depth 0-3 copy steps measured by probes. Exploration.",
             "seeded sub-history simulation of drain sessions with ledger"),
-    "C10": ("§3 C10", "mem::forget of a live Drain after a random prefix of its consumption word (the drain's destructor never runs); afterwards contents must be live, distinct, from the original contents and disjoint from handed-out elements; strict tail and final drop follow. fault_enumeration (fault = destructor not run).",
+    "C10": ("§3 C10", "mem::forget of a live Drain after a random prefix of its consumption word (the drain's destructor never runs); afterwards contents must be live, distinct, from the original contents and disjoint from handed-out elements; strict tail and final drop follow; a second batch leaks drains of a drop-counting zero-sized element at huge capacities (count model: the buffer may not claim more elements than still exist). fault_enumeration (fault = destructor not run).",
             "deterministic simulation with injected 'destructor never runs' fault (mem::forget) and ledger oracle"),
     "C11": ("§3 C11", "Every step carries the model's prediction 'panics iff documented' computed in 128-bit arithmetic (all Bound combinations, usize::MAX, N=0); unwinding is an observed event; contents must be unchanged after a documented panic; a watchdog bounds every run. Exploration.",
             "seeded history simulation with panic/termination oracle"),
     "C12": ("§3 C12", "Constructors and conversions as operations inside histories (new/default/boxed/from array M in 0..=17/from_iter/clone/clone_from/to_vec/into_iter+collect) with ledger origins (fresh ids for clones, same ids for moves) and independence checked by conservation after dropping either side. Exploration.",
             "seeded history simulation with ledger origins"),
-    "C13": ("§3 C13", "Buffers of every pair of compiled capacities and rotations are compared (==, !=, partial_cmp, cmp, Hash through a recording hasher, == with slices/arrays/refs, Debug under 8 flag sets) against the model sequences. Exploration.",
+    "C13": ("§3 C13", "Buffers of every pair of compiled capacities and rotations are compared (==, !=, partial_cmp, cmp, Hash through a recording hasher, == with slices/arrays/refs and with a buffer of another element type, Debug under 8 flag sets) against the model sequences; a second batch compares every byte buffer of the io scenario after every step with a freshly built buffer of the same contents (==, cmp, Debug, and Hash through a recording hasher that is sensitive to how the byte stream is cut into write() calls). Exploration.",
             "seeded simulation of buffer pairs against sequence model"),
     "C14": ("§3 C14", "A byte buffer used as a lossy pipe between a producer and a consumer whose interleaving (runs, stalls) the seeded scheduler chooses; every std::io required and provided method, io::copy in both directions with faulty stream peers (short transfers, Interrupted, Ok(0), hard errors), all checked against a keep-newest-N byte-stream model; never Err, never panics, for N in {0,1,2,3,4,5,8,16,64}. Exploration.",
             "deterministic simulation of producer/consumer schedules with faulty stream peers against a byte-stream model"),
     "C16": ("§3 C16", "The same script is executed through std::io, embedded_io and embedded_io_async (own poll-once executor, Pending is a violation); per-step traces (counts, bytes, contents) must be identical and each must match the byte model. Builds: both features (quick), plus each feature alone (thorough). Exploration.",
             "differential simulation of one script across three trait families with a poll-once executor"),
-    "C17": ("§3 C17", "The simulator owns the global allocator: allocations inside an operation window (outside harness-owned hooks) are counted for every non-panicking call in the deque, io and zst scenarios, in builds with features std, alloc and none; plus cargo build of the crate itself with no features and with alloc only (compile-time half, labelled as such). Exploration.",
+    "C17": ("§3 C17", "The simulator owns the global allocator: allocations inside an operation window (outside harness-owned hooks) are counted for every non-panicking call in the deque, io and zst scenarios, in builds with features std, alloc and none, plus a batch at capacity 40 so that size thresholds in the crate can be crossed; plus cargo build of the crate itself with no features and with alloc only (compile-time half, labelled as such). Exploration.",
             "allocator seam: counting global allocator around every simulated call + feature-set builds"),
     "C18": ("§3 C18", "The same seeds (fault-free and all fault families, deque + io + zst scenarios) are executed on nightly with default features and on nightly with the `unstable` feature; per-run digests of the full observable trace (returns, contents, panics, lifecycle events) must be equal; a differing run is shrunk by subprocess ddmin and reported with the first diverging event. Exploration.",
             "differential replay of identical seeded schedules and fault sequences on two builds"),
